@@ -318,6 +318,13 @@ pub use self::zalsa_local::CancellationToken;
 pub use crate::attach::{attach, attach_allow_change, with_attached_database};
 pub use crate::interned::{HashEqLike, Lookup};
 
+/// Verification hooks; exist only with `--cfg salsa_verif` (see /verif/MANIFEST.json).
+#[cfg(salsa_verif)]
+pub mod verif_hooks {
+    pub use crate::table::verif_hooks as table;
+    pub use crate::zalsa_local::verif_hooks as edges;
+}
+
 pub mod prelude {
     #[cfg(feature = "accumulator")]
     pub use crate::accumulator::Accumulator;
